@@ -500,4 +500,7 @@ type RootQ { t: T }
 type RootM { t: T }
 schema { query: RootQ mutation: RootM }`,
 	`type Query { ping: String }`,
+	// a directive argument with more than seven wrappers: the answer to the standard query is cut off
+	`directive @shape(dims: [[[[[[[[Int]]]]]]]]) on FIELD_DEFINITION
+type Query { ping: String @shape(dims: []) pong: Int }`,
 }
